@@ -52,7 +52,7 @@ def simStep (toks : List String) : String :=
         let smtu := (natOf kv "smtu").getD mtu
         let okProto := proto == "udp" || proto == "tcp"
         let okC := ["normal", "shutdown_early", "drop_early", "concurrent"].contains cop
-        let okS := ["normal", "write_first", "drop_early", "vanish", "forget_secret"].contains sop
+        let okS := ["normal", "write_first", "drop_early", "stall", "vanish", "forget_secret"].contains sop
         let max := 16 * 1048576
         let okDom := req ≤ max && resp ≤ max && 0 < wchunk && wchunk ≤ max && 0 < rchunk && rchunk ≤ max &&
           1250 ≤ mtu && mtu ≤ 32768 && 1250 ≤ smtu && smtu ≤ 32768 && dr ≤ 1000 && du ≤ 1000 && re ≤ 1000 &&
@@ -65,7 +65,9 @@ def simStep (toks : List String) : String :=
           let exact := (cop == "normal" || cop == "shutdown_early" || cop == "concurrent") &&
             (sop == "normal" || sop == "write_first")
           let failBy :=
-            if sop == "vanish" || sop == "forget_secret" then toString ((vanish + 999) / 1000 + idle + slackMs) else "-"
+            if sop == "vanish" || sop == "forget_secret" || sop == "stall" then
+              toString ((vanish + 999) / 1000 + (if sop == "stall" then 1000 else 0) + idle + slackMs)
+            else "-"
           s!"ok expect={if exact then "exact" else "prefix"} c2s={planned} s2c={resp} fail_by_ms={failBy}"
       | _, _, _, _, _, _, _, _, _, _, _, _, _, _, _ => "bad-op"
   | _ => "bad-op"
